@@ -6,10 +6,11 @@
    After the repairs af5cb3e (mandatory properties always exported) and 414a5ee (string without maxchars = unlimited)
    the rebuild / copy theorems carry no exception any more, and ScaledInteger leaves are covered. *)
 From Coq Require Import String Ascii.
-From Coq Require Import ZArith NArith Bool List.
+From Coq Require Import ZArith NArith Bool List Reals Lia Lra.
 Import ListNotations.
+From Flocq Require Import IEEE754.BinarySingleNaN.
 Require Import FV.Base.Util FV.Base.F64 FV.Base.PyVal FV.C01.Model FV.C01.Lemmas FV.Gen.C03 FV.C03.Model FV.C03.Lemmas
-  FV.C03.LemmasScaled FV.C03.LemmasTree FV.C03.LemmasCompat FV.C03.Refuted.
+  FV.C03.LemmasScaled FV.C03.LemmasTree FV.C03.F64Mono FV.C03.LemmasCompat FV.C03.LemmasNum FV.C03.LemmasScaledTarget FV.C03.LemmasCover FV.C03.Refuted.
 
 (* obligations on the facts regenerated from /repo (Gen/C03.v): the rebuild table, get_datatype, exportProperties,
    the property declarations and every export_datatype / copy / compatible body have the shape the model was written
@@ -62,20 +63,131 @@ Proof.
 Qed.
 Print Assumptions C03_copy_equiv.
 
-(* compatible() on the same-kind fragment (int, bool, string/text, blob, arrays of these): passes only if every
-   value of the first type's value set is in the second type's value set ... *)
-Theorem C03_compat_sound_same_kind_partial : forall a b,
-  same_kind a b -> compat a b = Ok tt -> forall v, in_setb (erase a) v = true -> in_setb (erase b) v = true.
-Proof. exact compat_sound_same_kind. Qed.
-Print Assumptions C03_compat_sound_same_kind_partial.
+(* ------------------------------------------------------------------ compatible()
+   Full statement of the property clause:
+     compat a b = Ok tt -> forall v, in_setb (erase a) v = true -> accepts b v          (accepts b v: b.validate(v) succeeds)
+   It is REFUTED for the pinned code (Refuted.v: struct member optional in the first and mandatory in the second; float
+   target whose tolerance shrinks towards zero while only the end points are probed - relative_resolution 2, 1 and
+   1 - 2^-53).  Proved: the statement for every pair of (arbitrarily nested) types with
+     covered a b       = wherever in the two trees a ScaledInteger is the FIRST type of a FloatRange or ScaledInteger, its
+                         grid-rounded limits round(min/scale)*scale, round(max/scale)*scale lie within [min, max]
+                         (grid_inside: a decidable condition of the first type alone; its value set is bounded by the
+                         former, the verdict probes the latter); true for every other pair of kinds, and
+     finding_free a b  = the two exception classes do not occur anywhere in the two trees:
+                         struct: no member that is optional in a and a mandatory member of b (exact class of the finding);
+                         FloatRange as second type of a FloatRange/IntRange/ScaledInteger: on each side the limit of a lies inside the
+                         limit of b, or on the far side of zero (the tolerance can only grow towards the inside), or
+                         relative_resolution is 0 (sufficient, not necessary: see notes/C03.md). *)
+Theorem C03_compat_sound : forall a b,
+  wfx a -> wfx b -> covered a b = true -> finding_free a b = true ->
+  compat a b = Ok tt -> forall v, in_setb (erase a) v = true -> accepts b v.
+Proof. intros a b. exact (compat_sound a b). Qed.
+Print Assumptions C03_compat_sound.
 
-(* ... and the verdict is exactly "limits nested": it does pass for equal or wider limits *)
-Theorem C03_compat_complete_same_kind_partial : forall a b,
-  wfx a -> same_kind a b -> (compat a b = Ok tt <-> widens a b).
+(* the pair classes behind it, each with its own hypotheses only *)
+
+(* EnumType against ANY type, no side condition *)
+Theorem C03_compat_sound_enum : forall n ms b,
+  compat (XEnum n ms) b = Ok tt -> forall v, in_setb (erase (XEnum n ms)) v = true -> accepts b v.
+Proof. exact compat_enum_sound. Qed.
+Print Assumptions C03_compat_sound_enum.
+
+(* enum into enum: the verdict is exact (enums are matched by code) *)
+Theorem C03_compat_enum_into_enum : forall n ms n' ms',
+  compat (XEnum n ms) (XEnum n' ms') = Ok tt <-> (forall k z, In (k, z) ms -> enum_by_value z ms' <> None).
+Proof. exact compat_enum_enum_iff. Qed.
+Print Assumptions C03_compat_enum_into_enum.
+
+(* enum into a number type: deliberately conservative, never passes (sound trivially, not a supported pairing) *)
+Theorem C03_compat_enum_into_number_never_passes : forall n ms b,
+  ms <> [] -> is_number_type b = true -> compat (XEnum n ms) b = Err EWrongType.
+Proof. exact compat_enum_number_never. Qed.
+Print Assumptions C03_compat_enum_into_number_never_passes.
+
+(* int range into enum (repaired e3dd3e3): exact - passes iff every value of the range is a code - and sound *)
+Theorem C03_compat_int_into_enum : forall mn mx n ms,
+  (compat (XInt mn mx) (XEnum n ms) = Ok tt <-> (forall z, (mn <= z <= mx)%Z -> enum_by_value z ms <> None)) /\
+  (compat (XInt mn mx) (XEnum n ms) = Ok tt -> forall v, in_setb (erase (XInt mn mx)) v = true -> accepts (XEnum n ms) v).
+Proof. intros. split; [apply compat_int_enum_iff|apply compat_int_enum_sound]. Qed.
+Print Assumptions C03_compat_int_into_enum.
+
+(* FloatRange / IntRange into FloatRange.  Partial: the guard is wider than the class of the open finding
+   (relative_resolution > 1); without it the statement is refuted also for relative_resolution <= 1 *)
+Theorem C03_compat_sound_into_float_partial :
+  (forall amn amx aa ar au af bmn bmx ba br bu bf,
+     wfx (XFloat amn amx aa ar au af) -> wfx (XFloat bmn bmx ba br bu bf) ->
+     lo_guard bmn br amn = true -> hi_guard bmx br amx = true ->
+     compat (XFloat amn amx aa ar au af) (XFloat bmn bmx ba br bu bf) = Ok tt ->
+     forall v, in_setb (erase (XFloat amn amx aa ar au af)) v = true -> accepts (XFloat bmn bmx ba br bu bf) v) /\
+  (forall amn amx bmn bmx ba br bu bf,
+     wfx (XInt amn amx) -> wfx (XFloat bmn bmx ba br bu bf) ->
+     lo_guard bmn br (of_Z amn) = true -> hi_guard bmx br (of_Z amx) = true ->
+     compat (XInt amn amx) (XFloat bmn bmx ba br bu bf) = Ok tt ->
+     forall v, in_setb (erase (XInt amn amx)) v = true -> accepts (XFloat bmn bmx ba br bu bf) v).
+Proof. split; [exact compat_float_float_sound|exact compat_int_float_sound]. Qed.
+Print Assumptions C03_compat_sound_into_float_partial.
+
+(* FloatRange / IntRange into ScaledInteger: no side condition (the tolerance of ScaledInteger.validate is the
+   constant scale, rounding to the grid succeeds for every finite quotient) *)
+Theorem C03_compat_sound_into_scaled :
+  (forall amn amx aa ar au af s bmn bmx ba br bu bf,
+     wfx (XFloat amn amx aa ar au af) -> wfx (XScaled s bmn bmx ba br bu bf) ->
+     compat (XFloat amn amx aa ar au af) (XScaled s bmn bmx ba br bu bf) = Ok tt ->
+     forall v, in_setb (erase (XFloat amn amx aa ar au af)) v = true -> accepts (XScaled s bmn bmx ba br bu bf) v) /\
+  (forall amn amx s bmn bmx ba br bu bf,
+     wfx (XInt amn amx) -> wfx (XScaled s bmn bmx ba br bu bf) ->
+     compat (XInt amn amx) (XScaled s bmn bmx ba br bu bf) = Ok tt ->
+     forall v, in_setb (erase (XInt amn amx)) v = true -> accepts (XScaled s bmn bmx ba br bu bf) v).
+Proof. split; [exact compat_float_scaled_sound|exact compat_int_scaled_sound]. Qed.
+Print Assumptions C03_compat_sound_into_scaled.
+
+(* ScaledInteger as first type (limits on the grid: grid_inside) into FloatRange (same guard as for a FloatRange as
+   first type) and into ScaledInteger (no guard) *)
+Theorem C03_compat_sound_from_scaled :
+  (forall s amn amx aa ar au af bmn bmx ba br bu bf,
+     wfx (XScaled s amn amx aa ar au af) -> wfx (XFloat bmn bmx ba br bu bf) -> grid_inside s amn amx = true ->
+     lo_guard bmn br amn = true -> hi_guard bmx br amx = true ->
+     compat (XScaled s amn amx aa ar au af) (XFloat bmn bmx ba br bu bf) = Ok tt ->
+     forall v, in_setb (erase (XScaled s amn amx aa ar au af)) v = true -> accepts (XFloat bmn bmx ba br bu bf) v) /\
+  (forall sa amn amx aa ar au af s bmn bmx ba br bu bf,
+     wfx (XScaled sa amn amx aa ar au af) -> wfx (XScaled s bmn bmx ba br bu bf) -> grid_inside sa amn amx = true ->
+     compat (XScaled sa amn amx aa ar au af) (XScaled s bmn bmx ba br bu bf) = Ok tt ->
+     forall v, in_setb (erase (XScaled sa amn amx aa ar au af)) v = true -> accepts (XScaled s bmn bmx ba br bu bf) v).
+Proof. split; [exact compat_scaled_float_sound|exact compat_scaled_scaled_sound]. Qed.
+Print Assumptions C03_compat_sound_from_scaled.
+
+(* completeness: the supported pairings pass when the limits are nested (nested: LemmasCover.v; same kind with equal or
+   wider limits, int into float / bool / enum containing it, bool into anything accepting False and True, enum into
+   enum / bool, containers member-wise; for a struct additionally every mandatory member of b is a member of a).
+   One direction only: for float targets the code is deliberately more generous (tolerance). *)
+Theorem C03_compat_complete : forall a b, wfx a -> wfx b -> nested a b -> compat a b = Ok tt.
+Proof. intros a b. exact (compat_complete a b). Qed.
+Print Assumptions C03_compat_complete.
+
+(* int into float: limits nested as real numbers (no rounding in the hypothesis) are nested after conversion *)
+Theorem C03_compat_complete_int_into_float_exact : forall amn amx bmn bmx ba br bu bf,
+  wfx (XInt amn amx) -> wfx (XFloat bmn bmx ba br bu bf) ->
+  (B2R bmn <= IZR amn)%R -> (IZR amx <= B2R bmx)%R ->
+  compat (XInt amn amx) (XFloat bmn bmx ba br bu bf) = Ok tt.
 Proof.
-  intros a b HW HK. split; [apply compat_only_if_nested; assumption|apply compat_if_nested; assumption].
+  intros amn amx bmn bmx ba br bu bf Wa Wb H1 H2. pose proof (wfx_ftarget _ _ _ _ _ _ Wb) as T.
+  destruct (wfx_int_range _ _ Wa) as (R1 & R2 & _).
+  apply compat_int_float_complete; try assumption;
+    [apply exact_nested_lo; [apply T|assumption|assumption]|apply exact_nested_hi; [apply T|assumption|assumption]].
 Qed.
-Print Assumptions C03_compat_complete_same_kind_partial.
+Print Assumptions C03_compat_complete_int_into_float_exact.
+
+(* same kind among int / bool / string / blob / arrays of these: the verdict is exactly "limits nested", and a pass
+   means nested value sets (C01's in_setb on both sides, stronger than "accepted") *)
+Theorem C03_compat_same_kind_exact : forall a b,
+  same_kind a b ->
+  (wfx a -> (compat a b = Ok tt <-> widens a b)) /\
+  (compat a b = Ok tt -> forall v, in_setb (erase a) v = true -> in_setb (erase b) v = true).
+Proof.
+  intros a b HK. split; [intros HW; split; [apply compat_only_if_nested; assumption|apply compat_if_nested; assumption]|].
+  apply compat_sound_same_kind. exact HK.
+Qed.
+Print Assumptions C03_compat_same_kind_exact.
 
 (* BoolType against ANY type (repaired 4137088): passes exactly when False and True are valid for the other type *)
 Theorem C03_compat_bool : forall b,
@@ -128,3 +240,128 @@ Example C03_compat_example :
   compat (XInt 1 2) (XEnum [] [($"a", 1%Z); ($"b", 2%Z)]) = Ok tt /\ is_err (compat (XInt 1 3) (XEnum [] [($"a", 1%Z); ($"b", 2%Z)])) = true /\
   is_err (compat XBool (XInt 5 10)) = true /\ compat XBool (XInt 0 1) = Ok tt.
 Proof. repeat split; vm_compute; reflexivity. Qed.
+
+(* ------------------------------------------------------------------ non-vacuity of the compatibility theorems *)
+Ltac wfx_by_compute :=
+  cbn [wfx snd];
+  repeat split; try discriminate; try (left; reflexivity); try (apply fix_by_bool; vm_compute; reflexivity);
+    try (vm_compute; reflexivity); try (intros; discriminate).
+
+(* a nested pair inside C03_compat_sound: struct of float / array of enum / tuple of int, string, bool against a struct
+   with wider members, one more optional member, int into float and bool into int inside the tuple *)
+Definition ex_a : xt :=
+  XStruct [($"a", XFloat fzero (fmk 10 0) fzero rel0 [] fmt0);
+           ($"b", XArray (XEnum $"e" [($"off", 0%Z); ($"on", 1%Z)]) 0 3);
+           ($"c", XTuple [XInt 0 5; XString 0 10 false false; XBool])] [$"b"] false.
+Definition ex_b : xt :=
+  XStruct [($"a", XFloat fzero (fmk 20 0) fzero rel0 [] fmt0);
+           ($"b", XArray (XEnum $"f" [($"off", 0%Z); ($"on", 1%Z); ($"auto", 2%Z)]) 0 5);
+           ($"c", XTuple [XFloat (fmk (-1) 0) (fmk 100 0) fzero rel0 [] fmt0; XString 0 20 true false; XInt 0 1]);
+           ($"d", XBool)] [$"b"; $"d"] false.
+Definition ex_v : pyval :=
+  PDict [($"c", PTuple [PInt 3; PStr $"abc"; PBool true]); ($"a", PFloat (fmk 5 (-1)))].
+
+Example C03_compat_sound_hypotheses :
+  wfx ex_a /\ wfx ex_b /\ covered ex_a ex_b = true /\ finding_free ex_a ex_b = true /\ compat ex_a ex_b = Ok tt /\
+  in_setb (erase ex_a) ex_v = true.
+Proof.
+  split; [unfold ex_a; wfx_by_compute|]. split; [unfold ex_b; wfx_by_compute|].
+  repeat split; vm_compute; reflexivity.
+Qed.
+Example C03_compat_sound_applies : accepts ex_b ex_v.
+Proof.
+  destruct C03_compat_sound_hypotheses as (Wa & Wb & C & G & HC & HV). exact (C03_compat_sound ex_a ex_b Wa Wb C G HC ex_v HV).
+Qed.
+Example C03_compat_complete_applies : nested ex_a ex_b /\ compat ex_a ex_b = Ok tt.
+Proof.
+  destruct C03_compat_sound_hypotheses as (Wa & Wb & _).
+  assert (N : nested ex_a ex_b).
+  { unfold ex_a, ex_b. rewrite nested_struct. split.
+    - cbn. repeat split; try (vm_compute; reflexivity); try lia; try (eexists; vm_compute; reflexivity); try discriminate.
+      + intros k z [E|[E|[]]]; injection E as <- <-; discriminate.
+    - intros k Hk Ho. cbn in Hk. destruct Hk as [<-|[<-|[<-|[<-|[]]]]]; try reflexivity; vm_compute in Ho; discriminate. }
+  split; [exact N|]. exact (C03_compat_complete ex_a ex_b Wa Wb N).
+Qed.
+
+(* the guard finding_free excludes exactly the refuted pairs (all of them are inside covered) *)
+Example C03_guards_exclude_the_witnesses :
+  let s1 := XStruct [($"a", XInt 0 1); ($"b", XBool)] [$"b"] false in
+  let s2 := XStruct [($"a", XInt 0 1); ($"b", XBool)] [] false in
+  let f0 := XFloat (fmk (-10) 0) (fmk 20 0) fzero rel0 [] fmt0 in
+  let f2 := XFloat (fmk 5 0) (fmk 20 0) fzero (fmk 2 0) [] fmt0 in
+  let g0 := XFloat (fmk (-1) 0) (fmk 5 0) fzero rel0 [] fmt0 in
+  let g1 := XFloat (fmk 1 (-60)) (fmk 5 0) fzero (fmk 1 0) [] fmt0 in
+  covered s1 s2 = true /\ finding_free s1 s2 = false /\ covered f0 f2 = true /\ finding_free f0 f2 = false /\
+  covered g0 g1 = true /\ finding_free g0 g1 = false /\
+  (* the same struct pair with the member optional on both sides is inside the guard and sound *)
+  finding_free s1 (XStruct [($"a", XInt 0 1); ($"b", XBool)] [$"b"] false) = true.
+Proof. repeat split; vm_compute; reflexivity. Qed.
+
+(* a float pair that is NOT nested (5 < 5 + 2^-30) and passes thanks to the tolerance, on the side where the guard
+   allows it (end point not negative): covered by the soundness theorem *)
+Example C03_compat_sound_float_tolerance :
+  let a := XFloat (fmk 5 0) (fmk 20 0) fzero rel0 [] fmt0 in
+  let b := XFloat (fmk 5368709121 (-30)) (fmk 20 0) fzero rel0 [] fmt0 in
+  wfx a /\ wfx b /\ compat a b = Ok tt /\ finding_free a b = true /\ fle (fmk 5368709121 (-30)) (fmk 5 0) = false /\
+  forall v, in_setb (erase a) v = true -> accepts b v.
+Proof.
+  cbv zeta.
+  assert (Wa : wfx (XFloat (fmk 5 0) (fmk 20 0) fzero rel0 [] fmt0)) by wfx_by_compute.
+  assert (Wb : wfx (XFloat (fmk 5368709121 (-30)) (fmk 20 0) fzero rel0 [] fmt0)) by wfx_by_compute.
+  assert (HC : compat (XFloat (fmk 5 0) (fmk 20 0) fzero rel0 [] fmt0)
+                      (XFloat (fmk 5368709121 (-30)) (fmk 20 0) fzero rel0 [] fmt0) = Ok tt) by (vm_compute; reflexivity).
+  assert (G : finding_free (XFloat (fmk 5 0) (fmk 20 0) fzero rel0 [] fmt0)
+                           (XFloat (fmk 5368709121 (-30)) (fmk 20 0) fzero rel0 [] fmt0) = true) by (vm_compute; reflexivity).
+  split; [exact Wa|]. split; [exact Wb|]. split; [exact HC|]. split; [exact G|]. split; [vm_compute; reflexivity|].
+  apply C03_compat_sound; assumption.
+Qed.
+
+(* enums, int ranges, the conservative verdict *)
+Example C03_compat_enum_examples :
+  let e12 := XEnum $"e" [($"a", 1%Z); ($"b", 2%Z)] in
+  let e123 := XEnum $"f" [($"x", 1%Z); ($"y", 2%Z); ($"z", 3%Z)] in
+  compat e12 e123 = Ok tt /\ is_err (compat e123 e12) = true /\
+  compat (XInt 1 3) e123 = Ok tt /\ is_err (compat (XInt 0 3) e123) = true /\
+  compat (XEnum $"sw" [($"off", 0%Z); ($"on", 1%Z)]) XBool = Ok tt /\
+  compat e12 (XInt 0 10) = Err EWrongType /\
+  in_setb (erase e12) (PEnum $"b" 2) = true /\ accepts e123 (PEnum $"b" 2).
+Proof.
+  cbv zeta. repeat split; try (vm_compute; reflexivity).
+  apply (C03_compat_sound_enum $"e" [($"a", 1%Z); ($"b", 2%Z)]); vm_compute; reflexivity.
+Qed.
+
+(* int into float with limits nested as real numbers *)
+Example C03_compat_int_into_float_example :
+  compat (XInt (-5) 5) (XFloat (fmk (-11) (-1)) (fmk 11 (-1)) fzero rel0 [] fmt0) = Ok tt.
+Proof.
+  apply C03_compat_complete_int_into_float_exact; [wfx_by_compute|wfx_by_compute| |].
+  - rewrite B2R_fmk_exact by (cbv; intuition discriminate). unfold Defs.F2R. cbn. lra.
+  - rewrite B2R_fmk_exact by (cbv; intuition discriminate). unfold Defs.F2R. cbn. lra.
+Qed.
+
+(* IntRange(0, 5) and FloatRange(0, 2.5) into ScaledInteger(0.5, 0, 5) *)
+Example C03_compat_into_scaled_example :
+  let b := XScaled (fmk 1 (-1)) fzero (fmk 5 0) (fmk 1 (-1)) rel0 [] fmt0 in
+  compat (XInt 0 5) b = Ok tt /\ compat (XFloat fzero (fmk 5 (-1)) fzero rel0 [] fmt0) b = Ok tt /\
+  is_err (compat (XInt 0 6) b) = true /\ covered (XInt 0 5) b = true /\
+  forall v, in_setb (erase (XInt 0 5)) v = true -> accepts b v.
+Proof.
+  cbv zeta. split; [vm_compute; reflexivity|]. split; [vm_compute; reflexivity|]. split; [vm_compute; reflexivity|].
+  split; [vm_compute; reflexivity|].
+  apply (proj2 C03_compat_sound_into_scaled); [wfx_by_compute|exact C03_scaled_wfx|vm_compute; reflexivity].
+Qed.
+
+(* ScaledInteger(0.5, 0, 5) into FloatRange(0, 10) and into ScaledInteger(0.25, 0, 5): inside the umbrella theorem *)
+Example C03_compat_from_scaled_example :
+  let a := XScaled (fmk 1 (-1)) fzero (fmk 5 0) (fmk 1 (-1)) rel0 [] fmt0 in
+  let b1 := XFloat fzero (fmk 10 0) fzero rel0 [] fmt0 in
+  let b2 := XScaled (fmk 1 (-2)) fzero (fmk 5 0) (fmk 1 (-2)) rel0 [] fmt0 in
+  grid_inside (fmk 1 (-1)) fzero (fmk 5 0) = true /\
+  covered a b1 = true /\ finding_free a b1 = true /\ compat a b1 = Ok tt /\
+  covered a b2 = true /\ finding_free a b2 = true /\ compat a b2 = Ok tt /\
+  in_setb (erase a) (PFloat (fmk 5 (-1))) = true /\
+  (forall v, in_setb (erase a) v = true -> accepts b1 v).
+Proof.
+  cbv zeta. do 8 (split; [vm_compute; reflexivity|]).
+  apply C03_compat_sound; [exact C03_scaled_wfx|wfx_by_compute|vm_compute; reflexivity|vm_compute; reflexivity|vm_compute; reflexivity].
+Qed.
